@@ -60,10 +60,27 @@ def workdir(name):
 # TLC
 
 class TlcResult:
-    def __init__(self, out, rc, wall):
-        self.out = out
+    """Result of one TLC run.  TLC's output is kept in a file (thorough runs print millions of CASE lines): `.out` holds
+    only the lines that are not `<<"TAG", ...>>` prints (plus the first few of those); `cases(tag)` streams the file."""
+    def __init__(self, out_path, rc, wall):
+        self.out_path = out_path
         self.rc = rc
         self.wall = wall
+        keep, tagged, other = [], 0, 0
+        with open(out_path, "r", errors="replace") as f:
+            for line in f:
+                if line.startswith('<<"CASE"'):
+                    tagged += 1
+                    if tagged <= 5:
+                        keep.append(line)
+                elif line.startswith('<<"'):
+                    other += 1
+                    if other <= 200000:
+                        keep.append(line)
+                else:
+                    keep.append(line)
+        out = self.out = "".join(keep)
+        self.printed = tagged
         self.states = 0
         self.distinct = 0
         m = None
@@ -85,16 +102,25 @@ class TlcResult:
         for m in re.finditer(r"<(\w+) line \d+, col \d+ to line \d+, col \d+ of module (\w+)>: (\d+):(\d+)", out):
             self.coverage[m.group(1)] = self.coverage.get(m.group(1), 0) + int(m.group(4))
 
+    def raw_cases(self, tag="CASE"):
+        """The JSON text of every `PrintT(<<tag, ToJson(x)>>)` line, undecoded (one JSON document per item)."""
+        pre = '<<"%s", ' % tag
+        with open(self.out_path, "r", errors="replace") as f:
+            for line in f:
+                line = line.rstrip("\n")
+                if line.startswith(pre) and line.endswith(">>"):
+                    try:
+                        yield json.loads(line[len(pre):-2])
+                    except Exception:
+                        raise ToolError("undecodable TLC case line: " + line[:200])
+
     def cases(self, tag="CASE"):
         """Lines printed by `PrintT(<<tag, ToJson(x)>>)`: yields decoded JSON values."""
-        pre = '<<"%s", ' % tag
-        for line in self.out.splitlines():
-            if line.startswith(pre) and line.endswith(">>"):
-                body = line[len(pre):-2]
-                try:
-                    yield json.loads(json.loads(body))
-                except Exception:
-                    raise ToolError("undecodable TLC case line: " + line[:200])
+        for body in self.raw_cases(tag):
+            try:
+                yield json.loads(body)
+            except Exception:
+                raise ToolError("undecodable TLC case: " + body[:200])
 
 
 def tlc(module, cfg=None, workers=None, simulate=None, depth=None, seed=None, timeout=600,
@@ -122,15 +148,18 @@ def tlc(module, cfg=None, workers=None, simulate=None, depth=None, seed=None, ti
     e = dict(os.environ)
     e.update(env or {})
     t = time.time()
-    p = subprocess.run(cmd, cwd=SPEC, env=e, stdout=subprocess.PIPE, stderr=subprocess.STDOUT, text=True)
+    os.makedirs(os.path.join(WORK, "tlc-out"), exist_ok=True)
+    out_path = os.path.join(WORK, "tlc-out", name + ".txt")
+    with open(out_path, "wb") as of:
+        p = subprocess.run(cmd, cwd=SPEC, env=e, stdout=of, stderr=subprocess.STDOUT)
     wall = time.time() - t
     shutil.rmtree(meta, ignore_errors=True)
     if p.returncode == 124:
         raise ToolError(f"TLC timed out after {timeout}s on {module}/{cfg}")
-    r = TlcResult(p.stdout, p.returncode, wall)
-    if "Parsing or semantic analysis failed" in p.stdout or "Semantic errors" in p.stdout or \
-            "TLC threw an unexpected exception" in p.stdout or "java.lang.OutOfMemoryError" in p.stdout:
-        sys.stderr.write(p.stdout[-4000:])
+    r = TlcResult(out_path, p.returncode, wall)
+    if "Parsing or semantic analysis failed" in r.out or "Semantic errors" in r.out or \
+            "TLC threw an unexpected exception" in r.out or "java.lang.OutOfMemoryError" in r.out:
+        sys.stderr.write(r.out[-4000:])
         raise ToolError(f"TLC failed on {module}/{cfg}")
     log(f"TLC {module}/{cfg}: {r.states} states, {r.distinct} distinct, {wall:.1f}s, rc={p.returncode}")
     return r
